@@ -166,6 +166,12 @@ func (ws *workerState) account(sc *Scenario, r *RunResult) {
 	s.Yields += r.Stats.Yields
 	s.PerTarget[sc.Target]++
 	for k, v := range r.Probes {
+		if strings.HasPrefix(k, "max_") {
+			if v > s.Probes[k] {
+				s.Probes[k] = v
+			}
+			continue
+		}
 		s.Probes[k] += v
 	}
 	for ti, outs := range r.Outcomes {
@@ -291,7 +297,9 @@ func (ws *workerState) handleViolations(sc *Scenario, r *RunResult, test func(si
 		// minimise (time-boxed), then write the replay file
 		budget := time.Duration(ws.p.ShrinkS) * time.Second
 		dl := time.Now().Add(budget)
+		AbortAt = dl.Add(5 * time.Second)
 		min, tries := Shrink(sc, test(v.Sig), dl)
+		AbortAt = time.Time{}
 		rec.ShrinkTries = tries
 		minimised := min != sc
 		// final strict recording of the minimised scenario
@@ -373,9 +381,8 @@ func RunHistWorker(p Params) *Summary {
 		r := Run(sc)
 		if d := time.Since(t0); d > 3*time.Second {
 			ws.sum.Probes["slow_runs_over_3s"]++
-			if ms := d.Milliseconds(); ms > ws.sum.Probes["slowest_run_ms"] {
-				ws.sum.Probes["slowest_run_ms"] = ms
-				ws.sum.Probes["slowest_run_index"] = gi
+			if ms := d.Milliseconds(); ms > ws.sum.Probes["max_run_ms"] {
+				ws.sum.Probes["max_run_ms"] = ms
 			}
 		}
 		if i%50 == 0 || !own {
